@@ -15,6 +15,6 @@ def run(ctx):
         "built as CircularRecord."
     )
     r.not_decided = ["GenBank write/read round trip (Biopython I/O)", "nesting of inner provenance features in multi-level assemblies beyond the rotation exemption of K5"]
-    k17_entry(ctx, "C09")
-    k18_annotate(ctx, "C09")
+    ctx.guard(k17_entry, ctx, "C09")
+    ctx.guard(k18_annotate, ctx, "C09")
     run_kernels(ctx, ["K7", "K8", "K14", "K16", "K3", "K5"], "C09")
